@@ -109,7 +109,7 @@ PROPERTIES = {
         'does_not_decide': 'per-schedule visibility between an invalidating thread and readers',
     },
     'C16': {
-        'rules': [live.rule_guard_live_all, must.rule_update_resets, live.rule_miss_reasons, stale.rule_stale_removal, flow.rule_flow_sync, must.rule_must_insert, ty.rule_type_iter, live.rule_lookup_surface],
+        'rules': [live.rule_guard_live_all, must.rule_update_resets, live.rule_miss_reasons, stale.rule_stale_removal, flow.rule_flow_sync, must.rule_must_insert, ty.rule_type_iter, live.rule_lookup_surface, must.rule_must_invalidate],
         'explanation': 'Both Iter::next implementations yield an item only on paths where the full liveness predicate of that very '
                        'item is false.',
         'decides': 'iteration never yields an expired / invalidated entry; the filter is exactly the liveness predicate',
@@ -117,7 +117,7 @@ PROPERTIES = {
     },
     'C03': {
         'rules': [live.rule_miss_reasons, adm.rule_admission_outcomes, must.rule_must_insert, must.rule_update_resets, flow.rule_flow_unsync, flow.rule_flow_admit_sums_unsync, flow.rule_flow_sync,
-                  stale.rule_stale_ts, stale.rule_stale_removal, stale.rule_admit_live, adm.rule_must_recency, adm.rule_cmp_evict],
+                  stale.rule_stale_ts, stale.rule_stale_removal, stale.rule_admit_live, adm.rule_must_recency, adm.rule_cmp_evict, must.rule_scan_stops_with_cause, must.rule_must_expire],
         'explanation': 'Every miss path of the 6 lookups is explained by key-absent / iterator-exhausted or a true expiry / watermark '
                        'comparison on that entry.',
         'decides': 'lookups hide an existing entry only for expiry or invalidation',
